@@ -285,6 +285,7 @@ pub fn oracle(ctx: &mut Ctx) {
     let prop = ctx.args.get(0).cloned().unwrap_or_else(|| "C07".into());
     let mut rng = Rng::new(ctx.seed ^ 0x3E7A);
     let mut st = Stats::default();
+    let bin_dir: Option<std::path::PathBuf> = if crate::cli::binary_available() { Some(crate::cli::work_dir("meta-bin")) } else { None };
     for i in 0..ctx.n {
         let (mut img, info) = gen_himg(&mut rng, 10);
         if (prop == "C14" || prop == "C08") && rng.chance(1, 2) {
@@ -371,7 +372,14 @@ pub fn oracle(ctx: &mut Ctx) {
             Err(e) => { st.count("generator_invalid_input"); st.notes.push(e); continue; }
         };
         let has_c2pa = inp.chunks.iter().any(|c| &c.name == b"caBX");
-        let out = run_case(&case.input, &case.opts);
+        // one case in eight through the executable instead (the same option values asked for on the command line, the
+        // result taken from --stdout): the policy is the user's whichever door the file comes in by
+        let mut case = case;
+        let via_cli = if bin_dir.is_some() && rng.chance(1, 8) { crate::cli::run_case_via_binary(bin_dir.as_ref().unwrap(), &case.input, &case.opts, rng.next_u64()) } else { None };
+        let out = match via_cli {
+            Some(o) => { st.count("cases_through_the_executable"); case.class.push_str(" [through the executable, --stdout]"); o }
+            None => run_case(&case.input, &case.opts),
+        };
         if i < 2 { st.sample(format!("{} chunks={:?} opts: {}", case.class, inp.chunks.iter().map(|c| name_str(&c.name)).collect::<Vec<_>>(), case.opts.show())); }
         let bytes = match &out {
             Outcome::Panic => { st.fail("panic", "optimize_from_memory panicked".into(), case.replay_json()); continue; }
